@@ -29,6 +29,7 @@ def main():
     cxx, flags = "g++", ["-std=c++17", "-DASIO_STANDALONE", "-pthread"]
     if m:
         toks = re.split(r"\s+", m.group(1).split("&&")[0].split(";")[0].replace("`", "").strip().rstrip("*/ "))
+        toks = [t.strip("()[],") for t in toks]
         cxx = toks[0]
         flags = [t for t in toks[1:] if re.match(r"-(std=|D|O|l|f|g|pthread|W)", t)]
         if not any(t.startswith("-std") for t in flags):
